@@ -32,3 +32,10 @@ check("C08",
   "For every generated (formula, flavour, transformation) the real pipeline runs on a frame with z3-real numeric cells and on its transformed copy (row permutation with/without reset_index, index relabelling incl. duplicate/str/float labels, reversed column order, added unused columns with NaN, NaN-drop under a duplicate index); response, common and group matrices must be equal as z3 terms up to the row permutation, and labels, slices, levels and fitted transform parameters identical.",
   "Trusted: z3 (incl. its polynomial rewriter used to give equal sums one quotient/root variable); stubs listed in evidence; std != 0. Transformations, formulas and flavours are enumerated. bs() excluded (compiled percentile/splev).",
   "DESIGN.md section 4 C08")
+
+check("C09",
+  "relational symbolic execution: design_matrices on a frame with missing cells vs on the frame with exactly the affected rows removed, z3-real cells, equality decided by z3",
+  "model_checking",
+  "For every generated (formula, missingness pattern over used and unused columns, na_action, index flavour) the real pipeline runs on the frame with NaN/None cells and on the frame from which exactly the rows missing a USED variable were removed ('used' computed from the formula text by the harness). drop: all three matrices equal the reference run as z3 terms and stay row-aligned; error: ValueError iff such a row exists; pass: all rows kept, complete rows as under drop, NaN in exactly the columns whose label mentions the missing numeric variable; other na_action values are refused.",
+  "Trusted: z3; used_from_text(); stubs in evidence. Patterns of at most 2 (quick) / 3 (thorough) missing cells on a 6-row frame; 'pass' only for numeric cells and pointwise terms, as the statement restricts it.",
+  "DESIGN.md section 4 C09")
